@@ -193,7 +193,12 @@ fn get_limit(limit: Option<ASTNode>) -> Result<u64, QueryError> {
         Some(ASTNode::Value(ValueWithSpan {
             value: Value::Number(int, _),
             ..
-        })) => Ok(int.parse::<u64>().unwrap()),
+        })) => int.parse::<u64>().map_err(|e| {
+            QueryError::ParseError(format!(
+                "Invalid number in limit clause: Expected unsigned 64 bit integer, got {} ({})",
+                int, e
+            ))
+        }),
         None => Ok(u64::MAX),
         _ => Err(QueryError::NotImplemented(format!(
             "Invalid expression in limit clause: {:?}",
@@ -209,7 +214,12 @@ fn get_offset(offset: Option<Offset>) -> Result<u64, QueryError> {
             ASTNode::Value(ValueWithSpan {
                 value: Value::Number(rows, _),
                 ..
-            }) => Ok(rows.parse::<u64>().unwrap()),
+            }) => rows.parse::<u64>().map_err(|e| {
+                QueryError::ParseError(format!(
+                    "Invalid number in offset clause: Expected unsigned 64 bit integer, got {} ({})",
+                    rows, e
+                ))
+            }),
             expr => Err(QueryError::ParseError(format!(
                 "Invalid expression in offset clause: Expected constant integer, got {:?}",
                 expr,
